@@ -490,7 +490,7 @@ class CodeGenerator(NodeVisitor):
         # if any of the given keyword arguments is a python keyword
         # we have to make sure that no invalid call is created.
         kwarg_workaround = any(
-            is_python_keyword(t.cast(str, k))
+            is_python_keyword(t.cast(str, k)) or k == "__debug__"
             for k in chain((x.key for x in node.kwargs), extra_kwargs or ())
         )
 
